@@ -122,6 +122,7 @@ func scriptCase(c *core.Ctx, hostile bool, maxOps int, weights map[string]int, r
 			addProblems(res, rules(p), "ops: "+strings.Join(tail(s.Log, 25), " "))
 			statsOf(res, p)
 		}
+		checkExtras(c, s, res, rules, k)
 	}
 	res.Count("api_calls", int64(len(s.Log)))
 	res.Count("reopens", int64(s.Reopens))
@@ -339,19 +340,7 @@ func scriptCaseWithHook(c *core.Ctx, hostile bool, maxOps int, weights map[strin
 			statsOf(res, p)
 			hook(s, p, res)
 		}
-		for xi, xd := range s.Extra {
-			xp, _ := savedPackages(res, xd, c.WorkDir, fmt.Sprintf("c%d-%d-x%d", c.Case, k, xi))
-			for _, p := range xp {
-				probs := rules(p)
-				for j := range probs {
-					probs[j].Key += "/batch-render"
-				}
-				addProblems(res, probs, "a later document of a batch rendered with one data object ; ops: "+strings.Join(tail(s.Log, 25), " "))
-				statsOf(res, p)
-			}
-			res.Count("batch_renders_checked", 1)
-		}
-		s.Extra = nil
+		checkExtras(c, s, res, rules, k)
 	}
 	delete(s.Kinds, "__saves")
 	res.Count("api_calls", int64(len(s.Log)))
@@ -363,6 +352,23 @@ func scriptCaseWithHook(c *core.Ctx, hostile bool, maxOps int, weights map[strin
 	res.Sig = s.Sig()
 	res.Sample = map[string]interface{}{"case": c.Case, "ops": tail(s.Log, 40), "reopens": s.Reopens}
 	return res
+}
+
+// checkExtras saves and inspects the further documents a script produced (batch renders).
+func checkExtras(c *core.Ctx, s *Script, res *core.Result, rules func(*opc.Package) []opc.Problem, k int) {
+	for xi, xd := range s.Extra {
+		xp, _ := savedPackages(res, xd, c.WorkDir, fmt.Sprintf("c%d-%d-x%d", c.Case, k, xi))
+		for _, p := range xp {
+			probs := rules(p)
+			for j := range probs {
+				probs[j].Key += "/batch-render"
+			}
+			addProblems(res, probs, "a later document of a batch rendered with one data object ; ops: "+strings.Join(tail(s.Log, 25), " "))
+			statsOf(res, p)
+		}
+		res.Count("batch_renders_checked", 1)
+	}
+	s.Extra = nil
 }
 
 // selfTestOPC: the monitor accepts a golden minimal package and rejects golden broken ones.
